@@ -36,10 +36,11 @@ Definition run_table (t : Tree) : Tree :=
   let lay := tLLN (tnth t 6) in
   let draws := tLLZ (tnth t 7) in
   let r := subsample n a by_id wr lay draws tb in
-  let vs := axis_vecs a tb in
+  (* with replacement the kernel is handed the table without its empty vectors *)
+  let vs := axis_vecs a (if wr then drop_nonpositive a tb else tb) in
   let contract :=
     if by_id then permb (ids a tb) (nth 0 draws [])
-    else if wr then (if forallb (fun v => (0 <? zsum v)%Z) vs then multis_okb (Z.to_nat n) (gather_all vs lay) draws else true)
+    else if wr then multis_okb (Z.to_nat n) (gather_all vs lay) draws
     else draws_okb (Z.to_nat n) (map zsum vs) draws in
   L [eTable (fst r); eResult eTable (snd r); eB (if by_id then true else lay_okb vs lay); eB contract].
 
